@@ -95,6 +95,10 @@ class Image:
         W = importlib.import_module('flipjump.fjm.fjm_writer')
         C = importlib.import_module('flipjump.fjm.fjm_consts')
         wr = W.Writer(path, self.w, C.FJMVersion(version))
+        if getattr(self, 'overlapping', False):
+            # a file the Writer refuses to produce but the Reader loads: overlapping segments (the valid set is
+            # their union).  Written through the real writer with its overlap validation switched off.
+            wr._validate_segment_not_overlapping = lambda *a, **k: None  # type: ignore[method-assign]
         for s, l, d in self.segments:
             ds = wr.add_data(list(d))
             wr.add_segment(s, l, ds, len(d))
@@ -282,7 +286,7 @@ def gen_image(rng: random.Random, w: Optional[int] = None, layout: Optional[str]
     edges, sparse segments around page / window edges"""
     w = w or rng.choice([8, 16, 32, 64])
     ww = w.bit_length() - 1
-    layout = layout or rng.choice(['dense', 'dense', 'two', 'edge', 'far', 'gap'])
+    layout = layout or rng.choice(['dense', 'dense', 'two', 'edge', 'far', 'gap', 'overlap'])
     n_ops = rng.choice([4, 6, 8, 12]) if w > 8 else rng.choice([4, 6, 8])
     max_word = (1 << w) // w  # number of addressable words
     segs: List[Tuple[int, int]] = [(0, 2 * n_ops)]
@@ -296,6 +300,15 @@ def gen_image(rng: random.Random, w: Optional[int] = None, layout: Optional[str]
     elif layout == 'gap':
         segs[0] = (0, 2 * n_ops - 2)
         segs.append((2 * n_ops + 2, 4))
+    n_plain = len(segs)
+    if layout == 'overlap' and w >= 16:
+        # (a file only a foreign writer produces; the reader loads it: the valid set is the union) a wide
+        # zero segment with narrower ones inside it, in random order
+        b = 2 * n_ops + 2 * rng.randrange(1, 4)
+        inner = [(b + 2 * rng.randrange(1, 18), 2 * rng.randrange(1, 3)) for _ in range(rng.randrange(2, 6))]
+        extra_segs = [(b, 40)] + inner
+        rng.shuffle(extra_segs)
+        segs += extra_segs
     segs = [(s, l) for s, l in segs if s + l <= max_word] or [(0, min(2 * n_ops, max_word - max_word % 2))]
     all_words = [s + i for s, l in segs for i in range(l)]
     interesting_bits: List[int] = []
@@ -332,8 +345,11 @@ def gen_image(rng: random.Random, w: Optional[int] = None, layout: Optional[str]
         return rng.randrange(1 << w) if rng.random() < 0.5 else rng.randrange(dw)
 
     out: List[Tuple[int, int, List[int]]] = []
-    for s, l in segs:
+    for si, (s, l) in enumerate(segs):
         data: List[int] = []
+        if layout == 'overlap' and si >= n_plain:
+            out.append((s, l, []))  # zero-filled: no data, so the overlap is not ambiguous
+            continue
         for i in range(l // 2):
             data += [flip_target() % (1 << w), jump_target(i, s) % (1 << w)]
         if rng.random() < 0.3 and len(data) > 2:
@@ -342,4 +358,7 @@ def gen_image(rng: random.Random, w: Optional[int] = None, layout: Optional[str]
             data[rng.randrange(len(data))] = 0xBB67AE8584CAA73B  # the native engine's w=64 fill constant
         out.append((s, l, data))
     # make the input op reachable sometimes: op 1 lives at 2w..4w-1 which covers in_addr
-    return Image(w, out)
+    img = Image(w, out)
+    if layout == 'overlap':
+        img.overlapping = True  # type: ignore[attr-defined]
+    return img
